@@ -12,56 +12,68 @@ func init() {
 	register("C07", checkC07)
 }
 
-var routerPatternPool = []string{"/a/{x}", "/a/b", "/a/{y}/b", "/a/*{w}", "/a/b/", "/{x}/b", "a.b/a", "{h}.b/a", "/a/b*{w}", "/*{w}/b"}
-var routerInvalidPool = []string{"/a/{", "/*{}", "a/b{x}c", "/a/*{x}/*{y}", "noslash"}
+var routerPatternPool = []string{"/a/{x}", "/a/b", "/a/{y}/b", "/a/*{w}", "/a/b/", "/{x}/b", "/a/b*{w}", "/*{w}/b", "/a", "/a/b/c", "/a/*{w}/c", "/ab"}
+var routerInvalidPool = []string{"/a/{", "/*{}", "a/b{x}c", "/a/*{x}/*{y}", "noslash", "/a/*b}"}
 
 func stdProbes(g *routerGen, rng *rand.Rand, n int) {
-	paths := []string{"/a/b", "/a/b/", "/a/c", "/a/c/b", "/a/c/b/", "/a", "/b/b", "/a/bc", "/"}
-	hosts := []string{"", "a.b", "c.b"}
+	paths := []string{"/a/b", "/a/b/", "/a/c", "/a/c/b", "/a/c/b/", "/a", "/b/b", "/a/bc", "/", "/a/b/c", "/a/x/y/c", "/x/a", "/x/b", "/x/c", "/x/d", "/ab"}
+	hosts := []string{"", "a.b", "c.b", "x.b.c", "a.b.c"}
 	for i := 0; i < n; i++ {
 		g.Probes = append(g.Probes, probeReq{M: 1 + rng.Intn(len(g.Methods)), Host: hosts[rng.Intn(len(hosts))], Path: paths[rng.Intn(len(paths))]})
+	}
+	// every pool pattern is probed with a request that instantiates it (first method, and a host that fits)
+	for _, p := range g.Pool {
+		host, path := "", p
+		if i := indexByte(p, '/'); i > 0 {
+			host, path = instantiatePattern(rng, p[:i], []string{"a", "x"}), p[i:]
+		} else if i < 0 {
+			continue
+		}
+		g.Probes = append(g.Probes, probeReq{M: 1, Host: host, Path: instantiatePattern(rng, path, []string{"b", "c"})})
 	}
 	all := make([]int, len(g.Methods))
 	for i := range all {
 		all[i] = i + 1
 	}
-	for _, p := range []string{"", "/", "/a", "/a/", "/a/b", "/a/{", "a", "/a/{x}", "/b"} {
+	for _, p := range []string{"", "/", "/a", "/a/", "/a/b", "/a/{", "a", "/a/{x}", "/b", "/x/", "{h}", "{h}.b"} {
 		g.Prefixes = append(g.Prefixes, prefixReq{Ms: all, Prefix: p})
 	}
 	g.Prefixes = append(g.Prefixes, prefixReq{Ms: []int{1}, Prefix: "/a"})
 }
 
-func pickPatterns(rng *rand.Rand, nValid, nInvalid int) []string {
-	v := append([]string(nil), routerPatternPool...)
-	rng.Shuffle(len(v), func(i, j int) { v[i], v[j] = v[j], v[i] })
-	// make sure a conflicting pair is present
-	out := []string{"/a/{x}", "/a/{y}/b"}
-	for _, p := range v {
-		if len(out) >= nValid {
-			break
-		}
-		if p != out[0] && p != out[1] {
-			out = append(out, p)
+func indexByte(s string, c byte) int {
+	for i := 0; i < len(s); i++ {
+		if s[i] == c {
+			return i
 		}
 	}
-	out = out[:nValid]
-	iv := append([]string(nil), routerInvalidPool...)
-	rng.Shuffle(len(iv), func(i, j int) { iv[i], iv[j] = iv[j], iv[i] })
-	out = append(out, iv[:nInvalid]...)
-	rng.Shuffle(len(out), func(i, j int) { out[i], out[j] = out[j], out[i] })
-	return out
+	return -1
 }
 
-func seqGen(r *Run, rng *rand.Rand) *routerGen {
-	g := &routerGen{
-		Pool:      pickPatterns(rng, pick(r, 4, 5), 1),
-		Methods:   []string{"GET", "FOO", "get"},
-		MaxOps:    1,
-		MaxParams: 65535, MaxKey: 65535,
-		Trunc:   [][]int{{}},
-		Kinds:   []string{"Handle", "HandleRoute", "Update", "UpdateRoute", "Delete"},
-		Settled: []string{"Handle"},
+func baseGen(pool, methods []string) *routerGen {
+	return &routerGen{Pool: pool, Methods: methods, MaxOps: 1, MaxParams: 65535, MaxKey: 65535, Trunc: [][]int{{}},
+		Kinds: []string{"Handle", "HandleRoute", "Update", "UpdateRoute", "Delete"}, Settled: []string{"Handle"}}
+}
+
+// ---- themes: small instances of FoxRouter, each aimed at one family of situations ---------------------------
+
+// every history of the five one-call writes over path patterns: conflicting parameter names, an infix and a
+// suffix catch-all, a malformed pattern; valid, custom, invalid (and empty) methods
+func themeSeqPath(r *Run, rng *rand.Rand) *routerGen {
+	pool := []string{"/a/{x}", "/a/{y}/b", "/*{w}/b"}
+	extra := append([]string(nil), routerPatternPool...)
+	rng.Shuffle(len(extra), func(i, j int) { extra[i], extra[j] = extra[j], extra[i] })
+	for _, p := range extra {
+		if len(pool) >= pick(r, 4, 5) {
+			break
+		}
+		if p != pool[0] && p != pool[1] && p != pool[2] {
+			pool = append(pool, p)
+		}
 	}
+	pool = append(pool, routerInvalidPool[rng.Intn(len(routerInvalidPool))])
+	rng.Shuffle(len(pool), func(i, j int) { pool[i], pool[j] = pool[j], pool[i] })
+	g := baseGen(pool, []string{"GET", "FOO", "get"})
 	if !r.quick() {
 		g.Methods = []string{"GET", "FOO", "get", ""}
 	}
@@ -69,68 +81,99 @@ func seqGen(r *Run, rng *rand.Rand) *routerGen {
 	return g
 }
 
-func txnGen(r *Run, rng *rand.Rand) *routerGen {
-	g := &routerGen{
-		Pool:      []string{"/a/{x}", "/a/b"},
-		Methods:   []string{"GET"},
-		Txns:      1,
-		Snaps:     1,
-		MaxOps:    2,
-		MaxParams: 65535, MaxKey: 65535,
-		Trunc:   [][]int{{}},
-		Kinds:   []string{"Handle", "Update", "Delete"},
-		Settled: []string{"Handle", "Has", "Commit", "Snapshot", "Iter", "Abort"},
-	}
-	if rng.Intn(2) == 0 {
-		g.Pool = []string{"/a/b", "/a/{x}"}
-	}
+// the same over hostname patterns: a hostname that is a label-prefix of another, parameter labels with
+// conflicting names, a static host, a path-only fallback
+func themeSeqHost(r *Run, rng *rand.Rand) *routerGen {
+	pool := []string{"{h}.b.c/a", "{h}.b/a", "{g}.b/a/b", "a.b/a", "/a"}
 	if !r.quick() {
-		g.Pool = []string{"/a/{x}", "/a/b", "/a/{y}/b"}
+		pool = append(pool, "a.{h}.c/a")
+	}
+	rng.Shuffle(len(pool), func(i, j int) { pool[i], pool[j] = pool[j], pool[i] })
+	g := baseGen(pool, []string{"GET", "FOO"})
+	g.Kinds = []string{"Handle", "Update", "Delete"}
+	stdProbes(g, rng, 14)
+	return g
+}
+
+// transactions with Truncate over one standard and two custom methods holding different numbers of routes
+func themeTxnTrunc(r *Run, rng *rand.Rand) *routerGen {
+	g := baseGen([]string{"/a", "/b"}, []string{"GET", "FOO", "BAR"})
+	g.Txns, g.MaxOps = 1, 2
+	g.Kinds = []string{"Handle"}
+	g.Trunc = [][]int{{}, {1}, {2}, {3}, {2, 3}, {1, 2, 3}}
+	g.Settled = []string{"Len"}
+	stdProbes(g, rng, 6)
+	return g
+}
+
+func txnBase(pool []string, kinds []string, maxOps, snaps int) *routerGen {
+	g := baseGen(pool, []string{"GET"})
+	g.Txns, g.Snaps, g.MaxOps = 1, snaps, maxOps
+	g.Kinds = kinds
+	g.Settled = []string{"Handle", "Has", "Commit", "Snapshot", "Iter", "Abort"}
+	return g
+}
+
+// a parameter route and a static sibling: transactions, all endings, one snapshot handle
+func themeTxnSibling(r *Run, rng *rand.Rand) *routerGen {
+	pool := []string{"/a/{x}", "/a/b"}
+	if rng.Intn(2) == 0 {
+		pool = []string{"/a/b", "/a/{x}"}
+	}
+	g := txnBase(pool, []string{"Handle", "Update", "Delete"}, 2, 1)
+	if !r.quick() {
+		g = txnBase([]string{"/a/{x}", "/a/b", "/a/{y}/b"}, []string{"Handle", "Update", "Delete"}, 2, 1)
 		g.Settled = []string{"Handle", "Update", "Delete", "Truncate", "Has", "Route", "Reverse", "Lookup", "Iter", "Len", "Commit", "Abort", "Snapshot", "HandleRoute", "UpdateRoute"}
 	}
 	stdProbes(g, rng, 8)
 	return g
 }
 
+// a route and a route below it: a transaction updates the upper one and then writes below it
+func themeTxnNested(r *Run, rng *rand.Rand) *routerGen {
+	pools := [][]string{{"/a", "/a/b"}, {"/a/*{w}/c", "/a"}, {"/a/b", "/a/b/c"}}
+	g := txnBase(pools[rng.Intn(len(pools))], []string{"Handle", "Update", "Delete"}, 2, 1)
+	if !r.quick() {
+		g = txnBase([]string{"/a", "/a/b", "/a/b/c"}, []string{"Handle", "Update", "Delete"}, 2, 1)
+	}
+	stdProbes(g, rng, 8)
+	return g
+}
+
+// four siblings below one node: children slices that grow by appending, inserted and removed in every order,
+// inside transactions that commit or abort, with a snapshot held across
+func themeTxnFanout(r *Run, rng *rand.Rand) *routerGen {
+	g := txnBase([]string{"/x/a", "/x/b", "/x/c", "/x/d"}, []string{"Handle", "Delete"}, 1, pick(r, 0, 1))
+	g.Settled = []string{"Has"}
+	stdProbes(g, rng, 6)
+	return g
+}
+
+func runThemes(r *Run, seedOffset int64, themes ...func(*Run, *rand.Rand) *routerGen) {
+	rng := rand.New(rand.NewSource(r.Seed + seedOffset))
+	for _, th := range themes {
+		exploreRouter(r, th(r, rng), pick(r, 5*time.Minute, 40*time.Minute), 0)
+	}
+}
+
 // C02 - registered routes behave as an exact map keyed by (method, pattern).
 func checkC02(r *Run) {
-	rng := rand.New(rand.NewSource(r.Seed))
-	exploreRouter(r, seqGen(r, rng), pick(r, 5*time.Minute, 40*time.Minute), 0)
-	// the same map semantics inside transactions, with Truncate (which only exists there), committed and aborted
-	tg := &routerGen{
-		Pool:      []string{"/a/{x}", "/a/{y}/b"},
-		Methods:   []string{"GET", "FOO"},
-		Txns:      1,
-		MaxOps:    pick(r, 2, 3),
-		MaxParams: 65535, MaxKey: 65535,
-		Trunc:   [][]int{{}, {1}, {2}, {1, 2}},
-		Kinds:   []string{"Handle", "Delete"},
-		Settled: []string{"Len"},
-	}
-	if !r.quick() {
-		tg.Pool = []string{"/a/{x}", "/a/{y}/b", "/a/b"}
-		tg.Kinds = []string{"Handle", "Update", "Delete"}
-	}
-	stdProbes(tg, rng, 6)
-	exploreRouter(r, tg, pick(r, 5*time.Minute, 40*time.Minute), 0)
+	runThemes(r, 0, themeSeqPath, themeSeqHost, themeTxnTrunc)
 	r.assumption("route identity is observed through pointer equality and a per-registration annotation")
 }
 
 // C07 - routing depends only on the registered set, not on its history.
 func checkC07(r *Run) {
-	rng := rand.New(rand.NewSource(r.Seed + 7))
-	exploreRouter(r, seqGen(r, rng), pick(r, 5*time.Minute, 40*time.Minute), 0)
+	runThemes(r, 7, themeSeqPath, themeSeqHost, themeTxnFanout, themeTxnNested)
 	r.assumption("every edge of the exhaustive state graph is one history into its target set; all must answer the probes as the specification prescribes for that set")
 }
 
 // C03 - a published routing state never changes.
 func checkC03(r *Run) {
-	rng := rand.New(rand.NewSource(r.Seed))
-	exploreRouter(r, txnGen(r, rng), pick(r, 5*time.Minute, 40*time.Minute), 0)
+	runThemes(r, 3, themeTxnSibling, themeTxnNested, themeTxnFanout)
 }
 
 // C04 - transactions are atomic and isolated.
 func checkC04(r *Run) {
-	rng := rand.New(rand.NewSource(r.Seed + 4))
-	exploreRouter(r, txnGen(r, rng), pick(r, 5*time.Minute, 40*time.Minute), 0)
+	runThemes(r, 4, themeTxnSibling, themeTxnNested, themeTxnTrunc, themeTxnFanout)
 }
